@@ -386,8 +386,10 @@ def _o3(ctx, comp):
                         ctx.bad("O3", f"{comp.rm.rel}|compile_pattern|{d}.{k.arg}|{txt}", f"capture name `{txt}` is not checked with _nonconst", comp.rm.rel, c.lineno,
                                 witness="(match x [a #* None] 1) / (match x {\"k\" 1 #** None} 1): ValueError from compile()")
     ct = comp.rm.func("compile_try_expression")
-    a = pyq.contains(ct, lambda n: isinstance(n, ast.Assign) and norm(n.targets[0]) == "name" and "mangle" in norm(n.value))
-    ctx.require(a is not None, "compile_try_expression: except-variable mangling site not found")
+    a = pyq.contains(ct, lambda n: isinstance(n, ast.Assign) and norm(n.targets[0]) == "name" and isinstance(n.value, ast.Call) and ("mangle" in norm(n.value) or "_nonconst" in norm(n.value) or "str(" in norm(n.value)))
+    if a is None:
+        ctx.unres("O3", f"{comp.rm.rel}|compile_try_expression|except-name|_nonconst", "the statement that normalises the except variable was not recognised")
+        a = ast.parse("name = None").body[0]
     ctx.check("_nonconst" in norm(a.value), "O3", f"{comp.rm.rel}|compile_try_expression|except-name|_nonconst", "the except variable is not checked with _nonconst",
               comp.rm.rel, a.lineno, witness="(try 1 (except [None E] 2))", detail=norm(a.value))
     # AugAssign target kinds
